@@ -13,11 +13,11 @@ from common import NCPU, Machinery, Scratch, nucs_env, read_ndjson, run_workers,
 
 # focus -> knobs of the item generator
 FOCUS = {
-    "C01": dict(branching=True, modes=["solve", "solve", "min", "max"], ca=None),
-    "C02": dict(branching=True, modes=["solve"], ca=None, reorder=True, allcfg=True),
+    "C01": dict(solo=True, branching=True, modes=["solve", "solve", "min", "max"], ca=None),
+    "C02": dict(solo=True, branching=True, modes=["solve"], ca=None, reorder=True, allcfg=True),
     "C03": dict(modes=["min", "max"], ca=None, allvars=True),
     "C04": dict(modes=["solve", "solve", "min"], ca=None, flavours=["circuit", "alias", "alias", "int", "bool"]),
-    "C07": dict(modes=["solve"], ca=None, flavours=["int", "int", "bool", "alias"]),
+    "C07": dict(solo=True, modes=["solve"], ca=None, flavours=["int", "int", "bool", "alias"]),
     "C08": dict(modes=["solve", "solve", "min", "max"], ca=0, flavours=["int", "int", "bool", "circuit", "alias"]),
     "C09": dict(branching=True, modes=["solve", "solve", "min"], ca=None, allcfg=True),
     "C10": dict(modes=["solve", "solve", "min", "max"], ca=1),
@@ -68,10 +68,60 @@ def systematic_items(tier: str, seed: int, focus: str):
     return out
 
 
+def solo_items(tier: str, seed: int, focus: str):
+    """One constraint ALONE in a solver, on the boxes of the propagator-call scope (harness/scope.py): a missed ground
+    check or a premature entailment of one propagator cannot be masked by a neighbouring constraint."""
+    import scope
+    r = random.Random(seed * 31337 + 2)
+    knobs = FOCUS[focus]
+    n = 1000 if tier == "quick" else 20000
+    cases = []
+    while len(cases) < n:
+        alg, params, box = scope.random_case(r)
+        cases.append((alg, params, box))
+    # ... and boxes of the exhaustive families (reservoir sample per family, more for the algorithms with a rich
+    # case analysis), so that the shapes the call-level checks enumerate are also met by the engine
+    rich = {"lexicographic_leq": 6, "alldifferent": 3, "gcc": 2, "element_iv": 2, "element_liv": 2, "count_eq": 2}
+    base = 15 if tier == "quick" else 400
+    for name in scope.FAMILIES:
+        alg = scope.alg_of(name)
+        quota = base * rich.get(alg, 1)
+        if name in ("lex6w", "lex8"):      # three / four element vectors: rare shapes of the lexicographic automaton
+            quota = 1500 if tier == "quick" else 20000
+        res = []
+        for k, c in enumerate(scope.family(name)):
+            if len(res) < quota:
+                res.append(c)
+            else:
+                j = r.randint(0, k)
+                if j < quota:
+                    res[j] = c
+        cases += res
+    out = []
+    for alg, params, box in cases:
+        size = 1
+        for lo, hi in box:
+            size *= hi - lo + 1
+        if size > 600 or size < 2 or alg in ("no_sub_cycle", "scc"):
+            continue
+        nv = len(box)
+        P = {"doms": [list(b) for b in box], "vidx": list(range(nv)), "voff": [0] * nv,
+             "props": [{"vars": list(range(nv)), "alg": alg, "params": list(params)}]}
+        cfg = problems.random_config(r, P, ca=knobs.get("ca"))
+        mode = r.choice(knobs["modes"])
+        it = {"P": P, "cfg": cfg, "mode": mode}
+        if mode != "solve":
+            it["var"] = r.randrange(nv)
+        out.append(it)
+    return out
+
+
 def build_items(tier: str, seed: int, focus: str, n: int | None = None):
     items = _random_items(tier, seed, focus, n)
     if n is None:
         items += systematic_items(tier, seed, focus)
+        if FOCUS[focus].get("solo"):
+            items += solo_items(tier, seed, focus)
     for k, it in enumerate(items):
         it["id"] = k
     return items
